@@ -341,6 +341,11 @@ class Model:
                     slot[1][slot[2]] = val
                     return old
                 raise Unrecognised("mem::replace on %r" % (slot,))
+            if (fn.endswith("::expect") or fn.endswith("::unwrap")) and n["args"]:
+                v = self.ev(n["args"][0], env)
+                if isinstance(v, tuple) and v and v[0] == "some":
+                    return v[1]
+                raise Unrecognised("expect/unwrap of %r (a panic in the model)" % (v,))
             if fn.endswith("::is_none") or fn.endswith("::is_some"):
                 v = self.ev(n["args"][0], env)
                 if v is None or (isinstance(v, tuple) and v and v[0] == "some"):
